@@ -431,9 +431,6 @@ impl Subject for S14 {
         true
     }
 
-    fn required_labels(&self) -> Vec<String> {
-        ["Insert", "Replace", "Remove", "Take", "InitStorage", "InsertBatch", "RemoveBatch", "Commit"].iter().map(|s| s.to_string()).collect()
-    }
 }
 
 pub fn run(cli: &Cli) {
@@ -455,6 +452,7 @@ pub fn run(cli: &Cli) {
     for s in subjects {
         let b = Bounds::new(s.depth, cli).states(cli.tier.pick(400_000, 4_000_000)).wall(cli.tier.pick(50, 1500) / n);
         let r = explore(&s, &b);
+        crate::require_labels(&r, &["Insert", "Replace", "Remove", "Take", "InitStorage", "InsertBatch", "RemoveBatch", "Commit"]);
         run.add(r);
     }
     run.assume("sparse-merklized tables of this tree = the compression-service registry tables Merkleized<T> (primary key = table column id, one tree per table); ContractsState/ContractsAssets are Plain here and have no root");
